@@ -985,6 +985,49 @@ def bulk_specs(ctx, rng, leaves, ok, n_shapes, per_type_random, n_deep, max_coun
     return specs
 
 
+def length_sweep_specs(rng, quick=True):
+    """Messages whose encoded body length sweeps across the digit-count boundaries of BodyLength (99/100/101,
+    999/1000/1001) and whose total length reaches the multi-kilobyte range (checksum carry handling): a Heartbeat
+    with a padded TestReqID and a News message with long text lines.  (Added after two seeded changes that manifest
+    only at body length exactly 100 / 1000 and above ~2.9 KB.)"""
+    gen = Gen(rng)
+    out = []
+
+    def bodylen(sp):
+        def sz(c):
+            return sum(len(str(f[0])) + 1 + len(f[1]) + 1 + sum(sz(e) for e in f[2]) for f in c)
+        return len("35=") + len(sp.mt) + 1 + sz(sp.want["h"]) + sz(sp.want["b"]) + sz([f for f in sp.want["t"] if f[0] != 10])
+
+    def rebuild(sp):
+        parts = [ops_for(rng, sp.want[k], k, "schema") for k in "hbt"]
+        sp.ops = [o for p in parts for o in p]
+        return finish(sp)
+    base = make_spec(gen, "utest", "0", "length_sweep", lambda m, d: False, lambda m, d: 1, "schema")
+    base.want["b"] = [(112, "", [])]
+    l0 = bodylen(base)
+    targets = list(range(95, 106)) + list(range(995, 1006)) + ([9, 10, 11] if l0 <= 9 else [])
+    if not quick:
+        targets += list(range(90, 95)) + list(range(106, 130)) + list(range(980, 995)) + list(range(1006, 1030))
+    for t in targets:
+        if t - l0 < 1:
+            continue
+        sp = Spec("utest", "0", "length_sweep")
+        sp.want = {"h": base.want["h"], "t": base.want["t"], "b": [(112, "x" * (t - l0), [])]}
+        out.append(rebuild(sp))
+    # long messages: News with k text lines
+    for total in list(range(2940, 3000, 7 if quick else 2)) + list(range(4650, 4760, 11 if quick else 3)) + [6000, 7000]:
+        sp = make_spec(gen, "utest", "B", "long_message", lambda m, d: False, lambda m, d: 1, "schema")
+        k = 2 if total < 3500 else (3 if total < 5000 else 4)
+        line = lambda n, ch: [(58, ch * n, [])]
+        sp.want["b"] = [(148, "HEADLINE", []), (33, str(k), [line(10, "a") for _ in range(k)])]
+        rest = total - bodylen(sp)
+        per = max(1, rest // k)
+        els = [line(10 + per, rng.choice("az09AZ ")) for _ in range(k)]
+        sp.want["b"] = [(148, "HEADLINE", []), (33, str(k), els)]
+        out.append(rebuild(sp))
+    return out
+
+
 def reorder(rng, sp, order):
     """The same message built in another insertion order."""
     cp = Spec(sp.sch, sp.mt, sp.kind + "_" + order)
